@@ -280,6 +280,7 @@ def apply_contract(run, fi, sp, env, dyn_cls, silent=False):
         # (rule: congruence of pure functions; purity is this callee's own frame / no-draw obligation)
         result = canonical_result(run, fi, sp, env)
     elif rk:
+        run.mat_env = env
         result = run.eng.materialise(run, rk, 'res_' + fi.name, allow_split=False)
     env2 = dict(env)
     env2['result'] = result
